@@ -60,7 +60,7 @@ TEXT = {
     "C11": dict(
         technique="property-based fuzzing (rapid): unstructured and structure-aware hostile inputs, framed by an independent assembler so that they pass the integrity check; oracle: returns without panic within a watchdog",
         level_text="Exploration: raw byte strings of eight classes and correctly framed hostile token lists (random, and near-valid populations with token-level damage) are parsed into generated nested-group templates and every tests/fix44 type by both entry points, and looked up with fix.ValueByTag, with slices presented capacity-clamped and as prefixes of larger buffers.",
-        level_note="Trusted: recover() observes every panic on the calling goroutine; a 20 s per-call watchdog defines 'hang'. The session engine hands correctly framed admin messages with token-level damage and extreme numbers (MinInt64..MaxUint64, signs, leading zeros, exponents) to a running session in every state reached by well-formed traffic and local Logout()/Send() calls in between; the transport engine feeds hostile chunks through the real Acceptor.",
+        level_note="Trusted: recover() observes every panic on the calling goroutine; a 60 s per-call watchdog defines 'hang'. The session engine hands correctly framed admin messages with token-level damage and extreme numbers (MinInt64..MaxUint64, signs, leading zeros, exponents) to a running session in every state reached by well-formed traffic and local Logout()/Send() calls in between; the transport engine feeds hostile chunks through the real Acceptor.",
         design_ref="DESIGN.md section 4, C11",
     ),
     "C14": dict(
@@ -107,7 +107,7 @@ TEXT = {
     ),
     "C13": dict(
         technique="fault enumeration: complete cross product of termination causes x injection points x in-flight traffic over fixed script families, plus rapid-drawn scripts and timings; virtual-clock termination oracle and own goroutine-leak detection inside the synctest bubble",
-        level_text="Fault enumeration: every (script family, role, buffer size, cause, in-flight shape) tuple is executed on every run, and rapid adds drawn scripts/timings; after a bounded virtual settling time the socket must be closed, the serving call returned, the passive side notified, parked and later sends returned, and no goroutine with a library frame may remain in the bubble (read from runtime.Stack, filtered to the bubble). Drawn scripts may start with a Logon the acceptor refuses. A call that never returns (20 s wall-clock watchdog) is a violation with the case saved.",
+        level_text="Fault enumeration: every (script family, role, buffer size, cause, in-flight shape) tuple is executed on every run, and rapid adds drawn scripts/timings; after a bounded virtual settling time the socket must be closed, the serving call returned, the passive side notified, parked and later sends returned, and no goroutine with a library frame may remain in the bubble (read from runtime.Stack, filtered to the bubble). Drawn scripts may start with a Logon the acceptor refuses. A case that never finishes (60 s wall-clock watchdog) is a violation with the case saved.",
         level_note="Trusted: synctest's notion of durable blocking, netsim's fault injection, runtime.Stack. Limits: one parked sender at most; blocked-write expiry is scripted; kernel socket behaviours are represented only by the error/closure classes netsim implements.",
         design_ref="DESIGN.md section 4, C13",
     ),
